@@ -70,18 +70,54 @@ def run_unit(args):
     recurse per input character (the interpreter's default limits are for ordinary programs)."""
     import threading
 
+    import ctypes
+
     out = []
+    box = {}
     threading.stack_size(512 * 1024 * 1024)
     old = sys.getrecursionlimit()
     sys.setrecursionlimit(max(old, 60000))
-    t = threading.Thread(target=lambda: out.append(_run_unit(args)))
+    t = threading.Thread(target=lambda: out.append(_run_unit(args, box)), daemon=True)
     t.start()
-    t.join()
+    limit = args[2].get("path_limit_s", 30)
+    kicks = 0
+    while t.is_alive():
+        t.join(0.5)
+        eng = box.get("eng")
+        st = getattr(eng, "path_started", None) if eng is not None else None
+        if st is not None and time.time() - st > limit:
+            # a single path of the code under test has been running for too long: interrupt it
+            eng.path_started = time.time()
+            ctypes.pythonapi.PyThreadState_SetAsyncExc(ctypes.c_ulong(t.ident), ctypes.py_object(core.PathTimeout))
+            kicks += 1
+            if kicks > 50:
+                break
     sys.setrecursionlimit(old)
+    if not out:
+        return {"unit": args[1]["name"], "stats": None, "violations": [], "engine_faults": [], "inconclusive": "unit did not respond to the watchdog", "validated": 0, "samples": [], "wall_s": 0.0, "nontrivial": 0, "functions": []}
     return out[0]
 
 
-def _run_unit(args):
+def _confirm_hang(mod_name, unit, inputs, limit_s=20):
+    """re-run the body on the REAL package with these inputs in a subprocess; True if it does not finish"""
+    import subprocess
+
+    payload = json.dumps({"mod": mod_name, "shape": unit["shape"], "inputs": H.jsonable(inputs)})
+    code = (
+        "import sys, json; sys.path.insert(0, %r)\n"
+        "from sx import runner, harness as H\n"
+        "d = json.loads(sys.stdin.read()); mod = __import__(d['mod'], fromlist=['*'])\n"
+        "_, real = runner._libs()\n"
+        "H.run_real(mod.body, real, d['shape'], H.unjson(d['inputs']))\n" % VERIF
+    )
+    try:
+        subprocess.run([sys.executable, "-c", code], input=payload, text=True, capture_output=True, timeout=limit_s)
+        return False
+    except subprocess.TimeoutExpired:
+        return True
+
+
+def _run_unit(args, box=None):
     """Explore one unit (one shape) exhaustively.  Runs in a worker process."""
     mod_name, unit, opts = args
     t0 = time.time()
@@ -107,6 +143,8 @@ def _run_unit(args):
             seed=opts.get("seed", 0),
             cross_every=int(os.environ.get("SX_CROSSCHECK", opts.get("cross_every", 0)) or 0),
         )
+        if box is not None:
+            box["eng"] = eng
         ctx = H.SymCtx(sym)
         deadline = t0 + opts.get("unit_budget_s", 3600)
         validate_every = opts.get("validate_every", 1)
@@ -155,6 +193,13 @@ def _run_unit(args):
         except core.PathLimit as ex:
             res["inconclusive"] = f"PathLimit: {ex}"
         res["stats"] = eng.stats.as_dict()
+        for inp in eng.timeouts[:3]:
+            if inp is not None and _confirm_hang(mod_name, unit, inp):
+                res["violations"].append({"sig": "call-does-not-return", "label": "call-does-not-return", "detail": None, "inputs": H.jsonable(inp), "confirmed": True, "via": "watchdog+subprocess"})
+                break
+        else:
+            if eng.timeouts:
+                res["inconclusive"] = f"{len(eng.timeouts)} path(s) exceeded the per-path time limit in the symbolic run but finish on the real package"
         for cf in eng.cross_faults:
             res["engine_faults"].append({"note": "second solver disagrees", **cf})
         # replay the solver's counterexamples on the genuine package
